@@ -593,6 +593,63 @@ func racing(r *ev.Run) {
 	r.Nontrivial("racing")
 }
 
+// worn: an agent that has already received a great many requests with the awaited code (an agent lives for days and
+// every ssh connection attempt sends a listing request). The number of earlier requests crosses the 8- and 16-bit
+// boundaries while waiters come and go: each waiter must ignore a non-matching request and be released by the next
+// matching one, as on a fresh agent.
+func worn(r *ev.Run) {
+	for bi, boundary := range []int{256, 65536, 131072} {
+		c := r.Case("worn", bi)
+		if c == nil || wedgedOnce || r.NumViolations() > 8 {
+			continue
+		}
+		code := byte([]int{11, 13, 0}[bi])
+		g, err := newRig(true)
+		if err != nil {
+			r.Count("worn: rig could not be built", 1)
+			continue
+		}
+		r.Eval(1)
+		r.Guard(c, "worn-agent", boundary, func() {
+			sent := 0
+			for ; sent < boundary-4; sent++ {
+				g.direct.Broadcast(code)
+			}
+			for round := 0; round < 8; round++ {
+				w, err := g.startWaiter(code)
+				if err != nil {
+					return
+				}
+				if n := waitParked(1, ev.OpTimeout()); n != 1 {
+					r.Violation(c, "waiter-does-not-register:worn", fmt.Sprintf("code %d after %d earlier requests with it: %d parked", code, sent, n), boundary)
+					return
+				}
+				g.poke(code + 1)
+				if w.poll() {
+					r.Violation(c, "waiter-released-by-other-code:worn", fmt.Sprintf("code %d after %d earlier requests with it", code, sent), boundary)
+					return
+				}
+				g.poke(code)
+				sent++
+				select {
+				case e := <-w.done:
+					if e != nil {
+						r.Violation(c, "released-waiter-reports-error:worn", fmt.Sprintf("%v", e), boundary)
+						return
+					}
+				case <-time.After(ev.OpTimeout()):
+					r.Violation(c, "waiter-not-released:worn", fmt.Sprintf("a waiter on code %d registered after %d earlier requests with that code is not released by the next one", code, sent-1), boundary)
+					wedgedOnce = true
+					return
+				}
+				r.Count("waiters released on an agent with many earlier requests of their code", 1)
+			}
+			r.Nontrivial(fmt.Sprintf("worn:%d", boundary))
+		})
+		g.close()
+	}
+}
+
 func main() {
 	ev.MainIsolated("C20", "exploration", 60*time.Minute, func(r *ev.Run) {
 		r.Rule("scenarios on a real remote-mode yubiagent server (waiters are real clients calling Wait on their own connections served by ServeAgent; pokes are request frames whose first byte is the code, on fresh connections) and directly on (*shimagent.Server).Wait/Broadcast: every code 0..255 as wait code; 1..8 waiters on one code and spread over 2..4 codes; pokes of matching and non-matching codes (including codes >= 40 and codes congruent modulo 40) in seeded orders, all orders for up to 3 codes; late waiters registering between two pokes; a quarter of the scenarios lock the agent first (waiting does not depend on the lock state). The goroutine table is the monitor: after each poke's reply the number of goroutines parked in sync.Cond.Wait below (*Server).Wait must equal the number of waiters on other codes, the released waiters must all return success, no other waiter may return. Race-instrumented. distinct_nontrivial = distinct scenarios that ran to the end")
@@ -736,6 +793,7 @@ func main() {
 			one("gen", sc)
 		}
 		racing(r)
+		worn(r)
 		cs := []string{}
 		_ = sort.Strings
 		_ = cs
